@@ -65,7 +65,7 @@ NO_RAISE = {
     "importlib.util.module_from_spec": "plugin loading: arbitrary plugin code is outside the property (ASSUMPTIONS)",
     "importlib.util.spec_from_loader": "plugin loading", "inspect.getsourcefile": "plugin loading, diagnostics only",
     "io.BytesIO": "argument is the bytes object read from the archive", "io.StringIO": "row buffer / text given by the caller",
-    "itertools.islice": "limit is asserted to be >= 0 by validate() / Reader (API contract)",
+    "itertools.chain": "lazy concatenation", "itertools.islice": "limit is asserted to be >= 0 by validate() / Reader (API contract)",
     "logging.basicConfig": "set-up", "logging.getLogger": "set-up",
     "os.makedirs": "writes: only the --create / plugin helpers, not reading a CID or data",
     "os.path.abspath": "path text", "os.path.basename": "path text", "os.path.join": "path texts", "os.path.splitext": "path text",
